@@ -39,3 +39,4 @@ func vBlockUntil(p *bool)
 func vPreemptions() int
 func vStop(why string)
 func vYieldAll()
+func vInconclusive(why string)
